@@ -9,6 +9,12 @@ NOTE_COMMON = ("Trusted base of a 'held' verdict: CPython executing the repo sou
                "it is a concrete input that fails on the installed package.")
 
 CLAIMED = {
+    "C10": ("bounded symbolic execution of remove_overlapping / get_pairwise_distances / overlaps / "
+            "get_neighbor_distances / from_random on n<=3 (thorough 4) droplets, dims 1-3, with and without periodic "
+            "grids; positions, radii, minimal distance and rng draws symbolic; independent min-image oracle", "§4 C10"),
+    "C11": ("bounded symbolic execution of merge (in-place, out-of-place, direct kernel call, 2 and 3 operands, "
+            "unset widths) in dims 1-3 with symbolic positions/radii/widths; z3 decides volume, centre of mass, width, "
+            "order independence, path agreement and operand preservation", "§4 C11"),
     "C12": ("bounded symbolic execution of all conversion variants and droplet properties in dims 1-3; z3 decides "
             "round trips, variant agreement, derivative sandwich for all r>=0, V>=0, h>0", "§4 C12"),
 }
